@@ -521,7 +521,7 @@ class Representation(RepresentationBaseType):
                     next_seg_num is not None and
                     seg.expected_decode_time is not None and
                     next_decode_time is not None and
-                    seg.expected_decode_time != next_decode_time):
+                    abs(seg.expected_decode_time - next_decode_time) > seg.tolerance):
                 # this segment does not follow on from the previous one (the
                 # manifest was refreshed after older segments had left the
                 # timeshift buffer), so its number cannot be predicted
